@@ -523,7 +523,7 @@ fn cfi_text(cpu: &str, flavour: u32) -> String {
                 2 => "$rbp: .cfa -24 + ^ rbp: .undef".to_string(),
                 _ => "rbp: .cfa -24 + ^ $rbp: .cfa -16 + ^".to_string(),
             };
-            s.push_str(&format!("STACK CFI INIT 1000 7000 .cfa: $rsp 32 + $r12: $rbx 1 + {rbp} .ra: .cfa -8 + ^ $rbx: .cfa -32 + ^ $r14: .cfa $r13: .undef\n"));
+            s.push_str(&format!("STACK CFI INIT 1000 7000 .cfa: $rsp 32 + $r12: $rbx 1 + {rbp} .ra: .cfa -8 + ^ $rbx: .cfa -32 + ^ $r14: .cfa $r13: .undef $r15: 7 $nosuchreg + $rax: .cfa 8 + ^ ^ 3 $nosuchreg -\n"));
             if fl == 3 || fl == 5 {
                 s.push_str("STACK CFI 1400 rbp: .cfa -32 + ^ $rbp: .cfa -16 + ^ r15: 77\n");
             }
@@ -535,7 +535,7 @@ fn cfi_text(cpu: &str, flavour: u32) -> String {
                 2 => "$ebp: .cfa -12 + ^ ebp: .undef".to_string(),
                 _ => "ebp: .cfa -12 + ^ $ebp: .cfa -8 + ^".to_string(),
             };
-            s.push_str(&format!("STACK CFI INIT 1000 7000 .cfa: $esp 16 + $esi: $ebx 1 + {ebp} .ra: .cfa -4 + ^ $ebx: .cfa -16 + ^ $edi: .undef\n"));
+            s.push_str(&format!("STACK CFI INIT 1000 7000 .cfa: $esp 16 + $esi: $ebx 1 + {ebp} .ra: .cfa -4 + ^ $ebx: .cfa -16 + ^ $edi: .undef $eax: 7 $nosuchreg + $ecx: .cfa 4 + ^ ^ 3 $nosuchreg -\n"));
             if fl == 3 || fl == 5 {
                 s.push_str("STACK CFI 1400 ebp: .cfa -16 + ^ $ebp: .cfa -8 + ^ $eax: 77\n");
             }
@@ -548,7 +548,7 @@ fn cfi_text(cpu: &str, flavour: u32) -> String {
                 2 => format!("fp: .cfa -{w3} + ^ $fp: .undef"),
                 _ => format!("$fp: .cfa -{w3} + ^ fp: .cfa -{w2} + ^"),
             };
-            s.push_str(&format!("STACK CFI INIT 1000 7000 .cfa: {d}sp {w4} + s1: {d}s0 1 + {fp} .ra: .cfa -{w} + ^ {d}s0: .cfa -{w4} + ^ s2: .cfa s3: .undef\n"));
+            s.push_str(&format!("STACK CFI INIT 1000 7000 .cfa: {d}sp {w4} + s1: {d}s0 1 + {fp} .ra: .cfa -{w} + ^ {d}s0: .cfa -{w4} + ^ s2: .cfa s3: .undef t0: 7 {d}nosuchreg + t1: .cfa 4 + ^ ^ 3 {d}nosuchreg -\n"));
             if fl == 3 || fl == 5 {
                 s.push_str(&format!("STACK CFI 1400 $fp: .cfa -{w4} + ^ fp: .cfa -{w2} + ^ s4: 77\n"));
             }
@@ -567,7 +567,7 @@ fn cfi_text(cpu: &str, flavour: u32) -> String {
             } else {
                 String::new()
             };
-            s.push_str(&format!("STACK CFI INIT 1000 7000 .cfa: sp {w4} + r5: {d}r4 1 + {fp} .ra: .cfa -{w} + ^ r4: .cfa -{w4} + ^ r6: .cfa r7: .undef{more}\n"));
+            s.push_str(&format!("STACK CFI INIT 1000 7000 .cfa: sp {w4} + r5: {d}r4 1 + {fp} .ra: .cfa -{w} + ^ r4: .cfa -{w4} + ^ r6: .cfa r7: .undef r3: 7 nosuchreg + r2: .cfa 4 + ^ ^ 3 nosuchreg -{more}\n"));
             if fl == 3 || fl == 5 {
                 s.push_str(&format!("STACK CFI 1400 fp: .cfa -{w4} + ^ r8: 77 $r14: 4369 lr: 8738\n"));
             }
@@ -589,7 +589,7 @@ fn cfi_text(cpu: &str, flavour: u32) -> String {
             // the labels are deliberately not in name order, and x19..x22 make the rule map big enough
             // for its hash order to vary
             s.push_str(&format!(
-                "STACK CFI INIT 1000 7000 .cfa: sp 32 + x21: x19 1 + {x29} .ra: .cfa -8 + ^ x19: .cfa -32 + ^{fp} x20: .cfa x22: .undef{more}\n"
+                "STACK CFI INIT 1000 7000 .cfa: sp 32 + x21: x19 1 + {x29} .ra: .cfa -8 + ^ x19: .cfa -32 + ^{fp} x20: .cfa x22: .undef x3: 7 nosuchreg + x2: .cfa 8 + ^ ^ 3 nosuchreg -{more}\n"
             ));
             if fl == 3 || fl == 5 {
                 s.push_str("STACK CFI 1400 fp: .cfa -32 + ^ x23: 77\n");
